@@ -141,7 +141,8 @@ def container(kind, items):
 def make_mapping(nmax, t):
     def ob(n: int, a: int, b: int, c: int, d: int, e: int, f: int, ck: int) -> bool:
         k = pick(n, nmax + 1)
-        xs = [a, b, c, d, e, f][:k]
+        vals = [a, b, c, d, e, f]
+        xs = [vals[i % 6] for i in range(k)]          # beyond six elements the payloads repeat
         items = [{'x': xs[i], 'i': i} for i in range(k)]
         rec = Rec()
         out = t(seq=container(pick(ck, 4), items), rec=rec)
@@ -155,7 +156,8 @@ def make_mapping(nmax, t):
 def make_obj(nmax, nopush=False):
     def ob(n: int, a: int, b: int, c: int, d: int, e: int, ck: int) -> bool:
         k = pick(n, nmax + 1)
-        xs = [a, b, c, d, e][:k]
+        vals = [a, b, c, d, e]
+        xs = [vals[i % 5] for i in range(k)]          # beyond five elements the payloads repeat
         items = [O(xs[i], i) for i in range(k)]
         rec = Rec(prefix=None if nopush else 'p')
         out = (T_OBJ_NOPUSH if nopush else T_OBJ)(seq=container(pick(ck, 4), items), rec=rec, x='outer')
